@@ -51,6 +51,10 @@ CHECKS = {
  'C19': dict(engine='P', technique='exhaustive product go-statement form x recovery form; generator facts validated by one native process run per cell (crash trace of the panicking goroutine)',
              text='All 10 go-statement forms x 9 recovery forms: the entry function must be reported with a creation site whenever it does not itself defer a function that calls recover; each cell is also executed natively in its own process and the crash trace (or survival) validates the generator fact; an unrelated -exclude entry must not change the report.',
              note='main package only; spurious reports not judged', ref='§6 C19'),
+
+ 'C20': dict(engine='S', technique='stateless DFS over schedules of the real (mechanically rewritten) code under a controlled scheduler with iterative preemption bounding',
+             text='lib/build-sched.sh rewrites the concurrency constructs of the current sources onto the vsched shims and links the rewritten MapParallel into the worker; every interleaving up to the preemption bound (and the unbounded space for the smallest cases) is executed for all slice lengths / worker counts: result equals the sequential map in input order, f invoked exactly once per element, no deadlock, leak or panic.',
+             note='covers part (a) MapParallel; parts (b)-(d) (state initialisation, summary pass, report writer) are not covered yet; sequentially consistent scheduler', ref='§6 C20'),
 }
 NA = []
 def main():
